@@ -63,7 +63,8 @@ Enabled ==
                        to |-> (IF c.pc = "est" THEN WaitTimeout(c, c.now) ELSE 60)] : k \in {"timeout", "err", "closed", "intr"}}
                 \cup {Ev("stop")})
     [] c.pc = "reported"  -> (IF c.owed # None THEN {ReportEvent}
-                              ELSE {[e |-> "rfault", now |-> c.now, kind |-> "closed", at |-> "hdr", adv |-> 0, to |-> 60], Ev("close")})
+                              ELSE {[e |-> "rfault", now |-> c.now, kind |-> "closed", at |-> "hdr", adv |-> 0,
+                                     to |-> (IF c.back = "est" THEN WaitTimeout(c, c.now) ELSE 60)], Ev("close")})
     [] c.pc \in {"errwait", "fastrc"} -> {Ev("close")}
     [] c.pc \in {"sleepretry", "nodata"} -> {[e |-> "sleep", now |-> c.now, sec |-> c.iv.t.n, adv |-> c.iv.t.n]}
     [] OTHER -> {}
